@@ -25,11 +25,32 @@ TimePhrases(lit) == {[form |-> "time_diff", w |-> lit.w, z |-> NoZone, w2 |-> w2
                \cup {[form |-> "time_shift", w |-> lit.w, z |-> NoZone, op |-> "+", parts |-> <<P(30, "minute")>>]}
 DatePhrases(lit) == {[form |-> "date_diff", a |-> lit.a, b |-> b] : b \in {[y |-> 2020, m |-> 3, d |-> 1], [y |-> 2022, m |-> 1, d |-> 15]}}
                \cup {[form |-> "date_shift", a |-> lit.a, op |-> "+", n |-> 2, u |-> "day"]}
+\* the same for amounts of money, quantities and durations that are results
+O(q, c) == [q |-> q, cur |-> c]
+X(q, u) == [q |-> q, u |-> u]
+MoneyFirst == {[form |-> "money_arith", l |-> O(QInt(40), "usd"), op |-> "*", r |-> O(Q(5, 2), "")], [form |-> "money_arith", l |-> O(QInt(40), "eur"), op |-> "+", r |-> O(QInt(10), "eur")],
+               [form |-> "pct_phrase", w |-> "+", p |-> QInt(25), x |-> O(QInt(80), "try")]}
+UnitFirst == {[form |-> "unit_conv", x |-> X(QInt(5), "km"), target |-> "m"], [form |-> "unit_arith", l |-> X(QInt(3), "km"), op |-> "+", r |-> X(QInt(500), "m")],
+              [form |-> "unit_arith", l |-> X(QInt(6), "kg"), op |-> "/", r |-> X(QInt(4), "")]}
+DurFirst == {[form |-> "dur_arith", a |-> <<P(2, "hour")>>, op |-> "+", b |-> <<P(90, "minute")>>], [form |-> "dur_arith", a |-> <<P(3, "day")>>, op |-> "-", b |-> <<P(12, "hour")>>]}
+MoneyLitOf(l) == LET v == LineMeaning(Ctx0, l).slot IN [form |-> "money_lit", x |-> O(v.q, v.cur)]
+UnitLitOf(l) == LET v == LineMeaning(Ctx0, l).slot IN [form |-> "unit_lit", x |-> X(v.q, v.u)]
+DurLitOf(l) == LET v == LineMeaning(Ctx0, l).slot IN [form |-> "dur_lit", parts |-> <<P(v.d, "day"), P(v.s, "second")>>]
+MoneyPhrases(lit) == {[form |-> "money_conv", x |-> lit.x, target |-> t] : t \in {"try", "usd"}}
+                \cup {[form |-> "money_arith", l |-> lit.x, op |-> "+", r |-> O(QInt(5), lit.x.cur)]}
+                \cup {[form |-> "pct_phrase", w |-> "off", p |-> QInt(10), x |-> lit.x]}
+UnitPhrases(lit) == {[form |-> "unit_conv", x |-> lit.x, target |-> IF UnitOf(lit.x.u).kind = "length" THEN "cm" ELSE "g"]}
+               \cup {[form |-> "unit_arith", l |-> lit.x, op |-> "/", r |-> X(QInt(2), "")]}
+DurPhrases(lit) == {[form |-> "dur_as", parts |-> lit.parts, target |-> "minute"], [form |-> "dur_arith", a |-> lit.parts, op |-> "+", b |-> <<P(30, "minute")>>]}
+Prog2(s, lit, ph) == <<[form |-> "assign", name |-> Name, rhs |-> s], [form |-> "via", name |-> Name, operand |-> lit, phrase |-> ph]>>
+MoneyProgs == UNION {{Prog2(s, MoneyLitOf(s), ph) : ph \in MoneyPhrases(MoneyLitOf(s))} : s \in MoneyFirst}
+UnitProgs == UNION {{Prog2(s, UnitLitOf(s), ph) : ph \in UnitPhrases(UnitLitOf(s))} : s \in UnitFirst}
+DurProgs == UNION {{Prog2(s, DurLitOf(s), ph) : ph \in DurPhrases(DurLitOf(s))} : s \in DurFirst}
 VARIABLE prog
 \* (a bound of a set constructor may not depend on another: programs are built shift by shift)
 TimeProgs == UNION {{<<[form |-> "assign", name |-> Name, rhs |-> s], [form |-> "via", name |-> Name, operand |-> TimeLitOf(s), phrase |-> ph]>> : ph \in TimePhrases(TimeLitOf(s))} : s \in TimeShifts}
 DateProgs == UNION {{<<[form |-> "assign", name |-> Name, rhs |-> s], [form |-> "via", name |-> Name, operand |-> DateLitOf(s), phrase |-> ph]>> : ph \in DatePhrases(DateLitOf(s))} : s \in DateShifts}
-Init == prog \in TimeProgs \cup DateProgs
+Init == prog \in TimeProgs \cup DateProgs \cup MoneyProgs \cup UnitProgs \cup DurProgs
 Next == UNCHANGED prog
 Emit == PrintT(<<"CASE", ToJson([lines |-> prog, expected |-> RunLines(Ctx0, prog, <<>>).slots])>>)
 =============================================================================
